@@ -102,6 +102,9 @@ Expected(d, e, got) ==
       [] e.op = "min"     -> Driver(d, MinBegin(e.n, e.size, e.skip, e.mts), e)
       [] e.op = "aseeds"  -> Driver(d, ASeedsBegin(e.size, e.mts), e)
       [] e.op = "block" /\ e.fail_at = 0 /\ ~e.raised -> Driver(d, BlockBegin(e.maa, e.size, e.optsrc, e.exact), e)
+      [] e.op = "scc" /\ e.fail_at = 0 /\ ~e.raised ->
+             LET r == SccRun(S, tr.cfg.maxm, d, e.maa, OrcSeq(e.orc))
+             IN [d |-> r.d, ret |-> r.ret, out |-> <<>>, xl |-> r.xl, unsound |-> r.unsound, adopt |-> FALSE]
       [] e.op = "skipmin" -> LET r == SkipToMinimal(S, d, e.n, e.mts, e.fail_at = 1) IN Res(r[1], r[2])
       [] e.op = "skiprem" -> IF e.fail_at = 1 THEN Res(d, "error")
                              ELSE LET r == SkipRemaining(S, d, e.mts) IN Res(r[1], ToString(r[2]))
@@ -282,7 +285,7 @@ Inv_WORK   == Report("WORK",   "WORK" \notin bad)
 \* state invariants on every logged state
 Inv_WF == Report("WF", Started => RootOK(S, D) /\ EdgesWF(D) /\ NodesArePercolatedTraps(S, D))
 Inv_IndexExact == Report("IndexExact", Started => IndexExact(D))
-Inv_PartialFaithful == Report("PartialFaithful", Started => PartialFaithful(S, D))
+Inv_PartialFaithful == Report("PartialFaithful", Started => PartialFaithfulS(S, D, plain))
 Inv_PlainOnly == Report("PlainOnly", (Started /\ plain) => \A n \in Ids(D) : D.nodes[n].how # "other" /\ ~D.nodes[n].skipped)
 Inv_DepthExact == Report("DepthExact", Started => DepthExact(D) /\ ev.post.depth = Max({D.nodes[n].depth : n \in Ids(D)}))
 Inv_CacheFresh == Report("CacheFresh", Started => CacheFresh(S, D))
